@@ -34,6 +34,8 @@ type Obligation struct {
 	Cached  bool
 	QueryID string
 	Stdout  string
+
+	rawQuery string // complete SMT text (lemma obligations)
 }
 
 type SolverCfg struct {
@@ -52,9 +54,14 @@ const smtHeader = `(set-logic ALL)
 (declare-sort V 0)
 (declare-sort K 0)
 (declare-fun null () Ref)
+(declare-fun nullrow () (Array Int Ref))
+(assert (forall ((i Int)) (! (= (select nullrow i) null) :pattern ((select nullrow i)))))
 `
 
 func (o *Obligation) Query(st *Symtab) string {
+	if o.rawQuery != "" {
+		return o.rawQuery
+	}
 	var body strings.Builder
 	for _, a := range o.Assume {
 		if a.IsTrue() {
@@ -158,6 +165,21 @@ func Discharge(o *Obligation, st *Symtab, cfg *SolverCfg) {
 	ctx := context.Background()
 	if cfg.Agree {
 		dischargeAgree(ctx, o, query, cfg)
+		return
+	}
+	if o.Cover {
+		// vacuity probe: the assumptions must not be refutable (sat, or not decided within 2 s)
+		res, _, dur := runSolver(ctx, "z3-new", query, 2*time.Second, false)
+		o.TimeS = dur
+		o.Solver = "z3-new"
+		if res == "unsat" {
+			o.Result = "unsat"
+		} else {
+			o.Result = "sat"
+			if res != "sat" {
+				o.Stdout = "not refuted within 2 s (" + res + ")"
+			}
+		}
 		return
 	}
 	// stage 1
